@@ -9,6 +9,8 @@ from pyexpr import TranslateError
 MUTATORS = {"append", "extend", "add", "update", "pop", "remove", "clear", "insert", "setdefault", "sort", "reverse",
             "discard", "popitem", "appendleft"}
 PROCESS_SETTERS = {"sys.setrecursionlimit", "os.chdir", "os.putenv", "sys.setswitchinterval", "random.seed", "locale.setlocale"}
+# classes whose instances outlive one analysed file (one Registry / Rules object serves every file of a run)
+LONG_LIVED = {("norminette/registry.py", "Registry"), ("norminette/rules/__init__.py", "Rules")}
 FORBIDDEN_DYNAMIC = {"exec", "eval", "globals", "setattr", "delattr", "__import__", "compile"}
 
 
@@ -92,6 +94,24 @@ def analyse_file(repo, path):
                         out.append((rel, where, "assigns class/module attribute %s.%s" % (b, t.attr)))
                 if isinstance(t, ast.Attribute) and ast.unparse(t.value) in ("os.environ", "sys"):
                     out.append((rel, where, "process: assigns %s" % ast.unparse(t)))
+        # instance state of a long-lived object written outside its constructor
+        if (rel, owner) in LONG_LIVED and fn.name not in ("__init__", "__new__"):
+            for n in ast.walk(fn):
+                tgs = []
+                if isinstance(n, ast.Assign):
+                    tgs = n.targets
+                elif isinstance(n, (ast.AugAssign, ast.AnnAssign)):
+                    tgs = [n.target]
+                for t in tgs:
+                    for x in ast.walk(t):
+                        if isinstance(x, ast.Attribute) and isinstance(x.value, ast.Name) and x.value.id == "self" \
+                                and isinstance(x.ctx, ast.Store):
+                            out.append((rel, where, "assigns attribute self.%s of a long-lived object" % x.attr))
+                    if isinstance(t, ast.Subscript) and ast.unparse(t.value).startswith("self."):
+                        out.append((rel, where, "assigns into %s[...] of a long-lived object" % ast.unparse(t.value)))
+                if isinstance(n, ast.Call) and isinstance(n.func, ast.Attribute) and n.func.attr in MUTATORS \
+                        and ast.unparse(n.func.value).startswith("self."):
+                    out.append((rel, where, "mutates %s.%s() of a long-lived object" % (ast.unparse(n.func.value), n.func.attr)))
         # mutable default arguments
         for a, d in zip(reversed(fn.args.args), reversed(fn.args.defaults)):
             if isinstance(d, (ast.List, ast.Dict, ast.Set)):
